@@ -90,6 +90,18 @@ CLAIMED = {
         design='DESIGN.md §5 C09',
         note=NOTE_COMMON + 'Absence of source-data mutation is checked by snapshot only.',
         technique='Lean 4 proof (binding, folding, placeholder state machine) + history correspondence vs fresh execution'),
+    'C04': dict(
+        text=('Lean theorems: progress + preservation of the operator semantics for the model\'s own typing table (every binary '
+              'and unary operator on conforming non-NULL operands returns a value of the typed result or NULL and never a type '
+              'error; BETWEEN on comparable classes returns bool), lifted by structural induction to operator trees over typed '
+              'columns; `decide` theorems over the registry REGENERATED from the code: every binary/unary overload declares '
+              'exactly the type its semantics returns, comparison/BETWEEN/IN announce bool, aggregate result types, closed world '
+              'of operator classes. Tied to the code additionally by an oracle on the implementation: every cell of every '
+              'column of every Beancount table, every structured attribute and every function/aggregate/operator overload of '
+              'the registry driven through SQL is checked against the announced datatype, rendered and numberified.'),
+        design='DESIGN.md §5 C04',
+        note=NOTE_COMMON + 'Opaque overloads (prices, metadata) are sampled, not modelled. F-5 is a known finding.',
+        technique='Lean 4 proof (progress/preservation + decide over generated registry) + type oracle over all overloads'),
 }
 
 PENDING_REASON = 'check under construction in this round (model or correspondence not yet registered); not claimed yet'
